@@ -8,7 +8,9 @@ import numpy as np
 
 def _cells():
     return [np.diag([3.0, 3.5, 4.0]), np.array([[3.1, 0.2, -0.4], [0.7, 2.9, 0.5], [-0.3, 0.6, 4.2]]), np.array([[2.0, 0, 0], [4.0, 2.0, 0], [2.0, 6.0, 2.5]]),
-            np.array([[1.0, 0, 0], [0, 1.0, 0], [0, 0, 12.0]])]
+            np.array([[1.0, 0, 0], [0, 1.0, 0], [0, 0, 12.0]]),
+            # left-handed cell; cell whose third vector leans far over the other two
+            np.array([[0, 3.5, 0], [3.0, 0, 0], [0, 0, 4.0]]), np.array([[3.0, 0, 0], [0, 3.0, 0], [4.0, 1.0, 3.0]])]
 
 
 def brute_mic(pos, cell, pbc, R=6):
@@ -36,7 +38,7 @@ def replay_c10():
             n = 3
             sp = rng.uniform(0, 1, size=(n, 3))
             pos = sp @ cell
-            ref = brute_mic(pos, cell, pbc, R=7 if cell[2, 2] < 10 else 3)
+            ref = brute_mic(pos, cell, pbc, R=7 if abs(cell[2, 2]) < 10 else 3)
             Lmax = max([np.linalg.norm(cell[k]) for k in range(3) if pbc[k]] + [0.0])
             for cutoff in (None, float("inf"), 0.8, 2.5):
                 try:
@@ -111,14 +113,15 @@ def replay_c16():
     from ase import Atoms
     rng = np.random.default_rng(6)
     fails = []
-    for cell in _cells()[:3]:
+    for cell in [_cells()[k] for k in (0, 1, 2, 5)]:
         for pbc in itertools.product([True, False], repeat=3):
             n = 3
             sp = rng.uniform(0, 1, size=(n, 3))
             pos = sp @ cell
             nums = np.array([1, 6, 8])
-            for ext_d, cutoff in ((1.5, 1.0), (0.8, 2.0)):
-                es = matid.ext.extend_system(pos, nums, cell, np.array(pbc), ext_d)
+            for ext_d, cutoff in ((1.5, 1.0), (0.8, 2.0), (2.3, 1.0)):
+                # through the Python entry point (the observation point of the property)
+                es = g.get_extended_system(Atoms(numbers=nums, positions=pos, cell=cell, pbc=pbc), ext_d)
                 epos, eidx, efac = np.array(es.positions), np.array(es.indices), np.array(es.factors)
                 bad = []
                 if not (np.allclose(epos[:n], pos) and (eidx[:n] == np.arange(n)).all() and (efac[:n] == 0).all()):
@@ -138,7 +141,8 @@ def replay_c16():
                         s = p_img @ inv
                         # distance to the cell (parallelepiped): sample its surface coarsely
                         inside = np.clip(s, 0, 1) @ cell
-                        if np.linalg.norm(p_img - inside) < ext_d * 0.5 and ((i,) + tuple(f)) not in have:
+                        # (the clipped point lies in the cell, so this distance is an upper bound of the distance to the cell)
+                        if np.linalg.norm(p_img - inside) < ext_d * 0.999 and ((i,) + tuple(f)) not in have:
                             bad.append("image %s of atom %d within the extension distance is missing" % (f, i))
                 cl = g.get_cell_list(pos, cell, np.array(pbc), ext_d, cutoff)
                 qs = rng.uniform(0, 1, size=(2, 3)) @ cell
